@@ -81,7 +81,9 @@ def elf_name_ok(prefix, num, observed, libtables, machine):
         if observed in regnames:
             return True
         if not known(observed) and any(t.get(observed) == num for t in libtables):
-            return True
+            # a name only the library knows: unjudged, unless it is another spelling of a machine-specific name and
+            # the file is for a different machine (SHT_AMD64_UNWIND on an i386 file)
+            return applicable(observed, prefix, machine)
         return False
     if observed != num:
         return False
